@@ -135,3 +135,50 @@ def mat_close(a, b, rel: float = 1e-9) -> bool:
     if len(a) != len(b):
         return False
     return all(len(r) == len(s) and all(close(u, v, rel) for u, v in zip(r, s)) for r, s in zip(a, b))
+
+
+# ---------------------------------------------------------------------------------------
+# magnitude of an expression: the sum of the absolute values of everything that is added up
+# ---------------------------------------------------------------------------------------
+
+
+def absval(expr, env: dict) -> float:
+    """|c1|*|m1| + |c2|*|m2| + ... for an expression built from numbers, symbols (bound by env: Symbol -> float),
+    sums, products and integer powers, WITHOUT expanding it: an upper bound of every partial sum a floating-point
+    evaluation of `expr` at env can meet.  Evaluating `expr` in binary64 (and printing its 53-bit number atoms with 15
+    significant digits, as lambdify does) differs from its exact value by at most a few hundred ulps of this magnitude;
+    the caller uses 1e-11 * absval as tolerance.  Used for models whose coefficients span many orders of magnitude
+    (unit-conversion factors such as 3e-7 next to 1): an absolute tolerance would hide a tiny term, a tolerance
+    relative to the RESULT would be unsound under cancellation.  Raises ValueError on anything else (Piecewise, ...)."""
+    import sympy
+
+    expr = sympy.sympify(expr)
+    if expr.is_Symbol:
+        return abs(float(env[expr]))
+    if expr.is_Number:
+        return abs(float(expr))
+    if expr.is_Add:
+        return float(sum(absval(a, env) for a in expr.args))
+    if expr.is_Mul:
+        r = 1.0
+        for a in expr.args:
+            r *= absval(a, env)
+        return r
+    if expr.is_Pow and expr.exp.is_Integer:
+        n = int(expr.exp)
+        if n >= 0:
+            return absval(expr.base, env) ** n
+        val = abs(float(expr.base.evalf(30, subs={k: sympy.Float(v, 30) for k, v in env.items()})))
+        if val == 0.0:
+            raise ValueError("division by zero")
+        cond = max(1.0, absval(expr.base, env) / val)
+        return (cond / val) ** (-n)
+    raise ValueError(f"absval: unsupported node {type(expr).__name__}")
+
+
+def within(a: Any, b: Any, mag: float, rel: float = 1e-11) -> bool:
+    """|a - b| <= rel * mag  (mag: absval of the expression a was computed from)"""
+    fa = float(a)
+    if fa != fa or fa in (float("inf"), float("-inf")) or mag != mag:
+        return False
+    return abs(_fr(a) - _fr(b)) <= _fr(rel * mag)
